@@ -146,7 +146,7 @@ def mk_in(cfg, asset, exchanges, holders, r):
                          dec_of_units(r["spot"]), dec_of_units(r["crypto_in"]),
                          crypto_fee=opt_units(r.get("crypto_fee")), fiat_in_no_fee=opt_units(r.get("fiat_in_no_fee")),
                          fiat_in_with_fee=opt_units(r.get("fiat_in_with_fee")), fiat_fee=opt_units(r.get("fiat_fee")),
-                         row=r["row"])
+                         row=r["row"], unique_id=r.get("uid"), notes=r.get("notes"))
 
 
 def mk_out(cfg, asset, exchanges, holders, r):
@@ -155,7 +155,7 @@ def mk_out(cfg, asset, exchanges, holders, r):
                           dec_of_units(r["spot"]), dec_of_units(r["crypto_out_no_fee"]), dec_of_units(r["crypto_fee"]),
                           crypto_out_with_fee=opt_units(r.get("crypto_out_with_fee")),
                           fiat_out_no_fee=opt_units(r.get("fiat_out_no_fee")), fiat_fee=opt_units(r.get("fiat_fee")),
-                          row=r["row"])
+                          row=r["row"], unique_id=r.get("uid"), notes=r.get("notes"))
 
 
 def mk_intra(cfg, asset, exchanges, holders, r):
@@ -163,7 +163,7 @@ def mk_intra(cfg, asset, exchanges, holders, r):
     return IntraTransaction(cfg, ts_string(*r["ts"]), asset, exchanges[r["from_exch"]], holders[r["from_holder"]],
                             exchanges[r["to_exch"]], holders[r["to_holder"]],
                             opt_units(r.get("spot")), dec_of_units(r["crypto_sent"]), dec_of_units(r["crypto_received"]),
-                            row=r["row"])
+                            row=r["row"], unique_id=r.get("uid"), notes=r.get("notes"))
 
 
 def err_kind(exc):
